@@ -8,7 +8,7 @@ export PYTHONPATH=/repo PYTHONHASHSEED=0 OPENDSM_EEMETER_VERIF=1 PYTHONWARNINGS=
 if [ -f harness/translate_all.py ]; then /venv/bin/python -W ignore harness/translate_all.py; fi
 /venv/bin/python -c "import sys; sys.path.insert(0,'harness'); import vlib; vlib.ensure_makefile()"
 cd coq
-timeout 3600 make -j16 2>&1 | grep -v "^Closed under\|^COQC\|^COQDEP" || true
+timeout 3600 make -k -j16 2>&1 | grep -v "^Closed under\|^COQC\|^COQDEP" || true
 cd ..
 /venv/bin/python - <<'PY'
 import sys
@@ -16,13 +16,15 @@ sys.path.insert(0, "harness")
 import vlib, os, re
 bad = vlib.forbidden_tokens()
 if bad:
-    print("FORBIDDEN:", bad); sys.exit(1)
+    print("FORBIDDEN:", bad); sys.exit(1)   # every check also refuses to pass with these present
 missing = []
 for line in open("coq/_CoqProject"):
     line = line.strip()
     if line.endswith(".v") and not os.path.exists("coq/" + line[:-2] + ".vo"):
         missing.append(line)
 if missing:
-    print("NOT BUILT:", missing); sys.exit(1)
+    # not fatal here: a file that does not build fails the check(s) that need it (check_proofs / ensure_models
+    # rebuild what they use and report a broken proof); the other properties stay checkable
+    print("WARNING, NOT BUILT:", missing)
 print("setup ok")
 PY
